@@ -124,6 +124,10 @@ def experiment(exp_id, scs):
                 run_cwd = os.path.join(os.path.dirname(paths[0]), "below")
                 os.makedirs(run_cwd, exist_ok=True)
                 argv = [os.path.relpath(a, run_cwd) if a in paths else a for a in argv]
+            if sc["env"] == "barename":
+                # scrut runs in the directory of the first document, which is named by its bare file name
+                run_cwd = os.path.dirname(paths[0])
+                argv = [os.path.relpath(a, run_cwd) if a in paths else a for a in argv]
             p = subprocess.Popen(argv, cwd=run_cwd, env=env, stdout=subprocess.PIPE, stderr=subprocess.PIPE, start_new_session=True)
             procs.append({"p": p, "sc": sc, "pdir": pdir, "wdir": wdir, "expect": expect, "paths": paths, "shared_pairs": shared_pairs})
         # wait for each; snapshot of the shared temp root right after its exit
@@ -194,7 +198,7 @@ def experiment(exp_id, scs):
                     want["TMP"] = e["TMPDIR"]
                     want["TEMP"] = e["TMPDIR"]
                     want["CRAMTMP"] = pr["wdir"] if sc["mode"] == "workdir" else os.path.dirname(e["PWD"])
-                if sc["env"] in ("symlink", "relpath"):
+                if sc["env"] in ("symlink", "relpath", "barename"):
                     del want["SCRUT_TEST"]          # (which spelling of the path it carries is not specified)
                 wrong = sorted(v for v, w in want.items() if e[v] != w)
                 if e["tmp_is_dir"] != "dir" or not e["TMPDIR"].startswith((tmproot if sc["mode"] != "workdir" else pr["wdir"]) + "/"):
@@ -262,7 +266,7 @@ def run(prop, tier, replay=None):
         base = [x for x in singles if not x["samename"] and ((len(x["docs"]) == 1 and x["env"] == "plain")
                                                              or (x["env"] in ("shared", "compat", "shadow") and x["docs"] in (["pass"], ["pass", "fail"], ["timeout"], ["skip"]))
                                                              or (x["env"] == "shells" and x["docs"] in (["pass", "pass"], ["pass", "fail"]))
-                                                             or (x["env"] in ("symlink", "relpath") and x["docs"] in (["pass"], ["pass", "fail"])))]
+                                                             or (x["env"] in ("symlink", "relpath", "barename") and x["docs"] in (["pass"], ["pass", "fail"])))]
         rest = [x for x in singles if x not in base]
         chosen = base + rnd.sample(rest, max(0, min(len(rest), nsingle - len(base))))
         exps = [[x] for x in chosen]
